@@ -76,6 +76,8 @@ type Cal struct {
 	PutResult func(path string, cal *ical.Calendar) (*caldav.CalendarObject, error)
 	// results of QueryCalendarObjects
 	QueryResult []caldav.CalendarObject
+	// ListOnQuery: answer a query with the objects stored under the path (discovery chains)
+	ListOnQuery bool
 }
 
 func (b *Cal) CurrentUserPrincipal(ctx context.Context) (string, error) {
@@ -143,7 +145,27 @@ func (b *Cal) ListCalendarObjects(ctx context.Context, path string, req *caldav.
 }
 func (b *Cal) QueryCalendarObjects(ctx context.Context, path string, q *caldav.CalendarQuery) ([]caldav.CalendarObject, error) {
 	b.add("QueryCalendarObjects", path, *q)
+	if b.QueryResult == nil && b.ListOnQuery {
+		return b.under(path), nil
+	}
 	return b.QueryResult, nil
+}
+
+func (b *Cal) under(path string) []caldav.CalendarObject {
+	b.mu.Lock()
+	defer b.mu.Unlock()
+	var out []caldav.CalendarObject
+	var keys []string
+	for k := range b.Objects {
+		keys = append(keys, k)
+	}
+	sort.Strings(keys)
+	for _, k := range keys {
+		if strings.HasPrefix(k, strings.TrimSuffix(path, "/")+"/") {
+			out = append(out, *b.Objects[k])
+		}
+	}
+	return out
 }
 func (b *Cal) PutCalendarObject(ctx context.Context, path string, cal *ical.Calendar, opts *caldav.PutCalendarObjectOptions) (*caldav.CalendarObject, error) {
 	var buf bytes.Buffer
@@ -192,6 +214,7 @@ type Card struct {
 	PutResult func(path string, card vcard.Card) (*carddav.AddressObject, error)
 	// results of QueryAddressObjects
 	QueryResult []carddav.AddressObject
+	ListOnQuery bool
 }
 
 func (b *Card) CurrentUserPrincipal(ctx context.Context) (string, error) {
@@ -271,6 +294,22 @@ func (b *Card) ListAddressObjects(ctx context.Context, path string, req *carddav
 }
 func (b *Card) QueryAddressObjects(ctx context.Context, path string, q *carddav.AddressBookQuery) ([]carddav.AddressObject, error) {
 	b.add("QueryAddressObjects", path, *q)
+	if b.QueryResult == nil && b.ListOnQuery {
+		b.mu.Lock()
+		defer b.mu.Unlock()
+		var out []carddav.AddressObject
+		var keys []string
+		for k := range b.Objects {
+			keys = append(keys, k)
+		}
+		sort.Strings(keys)
+		for _, k := range keys {
+			if strings.HasPrefix(k, strings.TrimSuffix(path, "/")+"/") {
+				out = append(out, *b.Objects[k])
+			}
+		}
+		return out, nil
+	}
 	return b.QueryResult, nil
 }
 func (b *Card) PutAddressObject(ctx context.Context, path string, card vcard.Card, opts *carddav.PutAddressObjectOptions) (*carddav.AddressObject, error) {
